@@ -3,7 +3,9 @@ package main
 import (
 	"bytes"
 	"fmt"
+	"math"
 	"math/rand"
+	"reflect"
 	"sort"
 	"strings"
 
@@ -121,6 +123,10 @@ func normQuirks(n *rp.Node) *rp.Node {
 		c.Leaf = "f0(0)"
 		return &c
 	}
+	if c.Kind == rp.KLeaf && isOddNaN(c.Leaf) {
+		c.Leaf = canonNaN
+		return &c
+	}
 	if len(n.Kids) > 0 {
 		c.Kids = make([]*rp.Node, len(n.Kids))
 		for i, k := range n.Kids {
@@ -128,6 +134,13 @@ func normQuirks(n *rp.Node) *rp.Node {
 		}
 	}
 	return &c
+}
+
+// canonNaN is the leaf of Go's math.NaN(); OTLP/JSON writes every NaN as the string "NaN" (finding C08-h).
+var canonNaN = rp.LeafOf(reflect.ValueOf(math.NaN()))
+
+func isOddNaN(leaf string) bool {
+	return strings.HasPrefix(leaf, "f") && strings.HasSuffix(leaf, "(NaN)") && leaf != canonNaN
 }
 
 // snapshotFindings compares the original with what came back from a codec.
@@ -153,6 +166,8 @@ func snapshotFindings(sub, codecName string, s *subject, want, got *rp.Node, emi
 			cls = "empty-bytes-becomes-empty"
 		case w.Kind == rp.KLeaf && strings.HasPrefix(w.Leaf, "f8000000000000000(") && g.Kind == rp.KLeaf && g.Leaf == "f0(0)":
 			cls = "negative-zero-lost"
+		case w.Kind == rp.KLeaf && isOddNaN(w.Leaf) && g.Kind == rp.KLeaf && g.Leaf == canonNaN:
+			cls = "nan-payload-lost"
 		}
 		if cls != "" {
 			if !seen[cls] {
@@ -327,7 +342,7 @@ func jsonOracles(reg *rp.Registry, s *subject, x any, snapX *rp.Node, pb []byte,
 // to "bytes differ although all getters agree" refutations so that known findings match narrowly.
 func quirks(n *rp.Node) string {
 	var q []string
-	eb, nz := false, false
+	eb, nz, on := false, false, false
 	var walk func(*rp.Node)
 	walk = func(n *rp.Node) {
 		if n == nil {
@@ -339,6 +354,9 @@ func quirks(n *rp.Node) string {
 		if n.Kind == rp.KLeaf && strings.HasPrefix(n.Leaf, "f8000000000000000(") {
 			nz = true
 		}
+		if n.Kind == rp.KLeaf && isOddNaN(n.Leaf) {
+			on = true
+		}
 		for _, k := range n.Kids {
 			walk(k)
 		}
@@ -349,6 +367,9 @@ func quirks(n *rp.Node) string {
 	}
 	if nz {
 		q = append(q, "negative-zero")
+	}
+	if on {
+		q = append(q, "nan-payload")
 	}
 	if len(q) == 0 {
 		return "none"
